@@ -306,6 +306,35 @@ int mc_composition(int n, uint32_t mask, int* parts) {
     return k;
 }
 
+void mc_deviations(const int* sizes, int nd, int maxdev, const char* tag, const char* const* names, mc_dev_fn fn, void* ctx) {
+    int ch[64];
+    if (nd > 64) mc_harness_error("too many dimensions");
+    for (int ndev = 0; ndev <= maxdev && ndev <= nd; ndev++) {
+        char st[96]; snprintf(st, sizeof st, "%s.deviation-%d", tag, ndev); mc_stage(st);
+        int idx[6] = { 0, 1, 2, 3, 4, 5 };
+        if (ndev > 6) mc_harness_error("deviation bound above 6");
+        for (;;) {
+            int val[6] = { 1, 1, 1, 1, 1, 1 };
+            for (;;) {
+                if (mc_next()) {
+                    memset(ch, 0, sizeof ch); char d[300]; int k = 0; d[0] = 0;
+                    for (int i = 0; i < ndev; i++) { ch[idx[i]] = val[i]; if (names) k += snprintf(d + k, sizeof d - (size_t)k, "%s%s=%d", i ? "," : "", names[idx[i]], val[i]); else k += snprintf(d + k, sizeof d - (size_t)k, "%sd%d=%d", i ? "," : "", idx[i], val[i]); }
+                    mc_desc("%s:dev=%d;{%s}", tag, ndev, d);
+                    mc_case_key(mc_hash(ch, sizeof(int) * (size_t)nd, (uint64_t)tag[0] * 131 + (uint64_t)tag[1])); mc_nontrivial();
+                    fn(ch, ndev, ctx);
+                }
+                int i = ndev - 1;
+                while (i >= 0 && ++val[i] >= sizes[idx[i]]) { val[i] = 1; i--; }
+                if (i < 0) break;
+            }
+            int i = ndev - 1;
+            while (i >= 0 && idx[i] == nd - ndev + i) i--;
+            if (i < 0) break;
+            idx[i]++; for (int j = i + 1; j < ndev; j++) idx[j] = idx[j - 1] + 1;
+        }
+    }
+}
+
 /* ---- crash classification --------------------------------------------- */
 static void fault_handler(int sig) {
     static const char m[] = "MCFAULT backtrace:\n";
